@@ -72,6 +72,47 @@ var tests = []litmus{
 		join(inc, inc)
 		*out = fmt.Sprintf("x=%d", x)
 	}},
+	// The rewriter turns `c.n++` on a field into read; vrt.Plain(); write. With plain
+	// points off that is one step (no lost update can be seen), with them on the two
+	// increments interleave - provided the memo is off, as in the scenarios that use them.
+	{name: "plain points off: a read-modify-write of plain memory is one step", expect: []string{"x=2"}, body: func(out *string) {
+		vrt.PlainPoints = false
+		x := 0
+		inc := func() { v := x; vrt.Plain(); x = v + 1 }
+		join(inc, inc)
+		*out = fmt.Sprintf("x=%d", x)
+	}},
+	{name: "plain points on: the lost update is visible (without the memo)", expect: []string{"x=1", "x=2"}, expectMemo: []string{"x=2"}, body: func(out *string) {
+		vrt.PlainPoints = true
+		defer func() { vrt.PlainPoints = false }()
+		x := 0
+		inc := func() { v := x; vrt.Plain(); x = v + 1 }
+		join(inc, inc)
+		*out = fmt.Sprintf("x=%d", x)
+	}},
+	{name: "external call points: a value prepared in shared memory can be overwritten before the call", expect: []string{"a b", "a a", "b b"}, expectMemo: []string{"a b"}, body: func(out *string) {
+		vrt.ExtCalls = true
+		defer func() { vrt.ExtCalls = false }()
+		var scratch string
+		var used []string
+		use := func(v string) func() {
+			return func() { scratch = v; vrt.ExtCall("WithLabelValues"); used = append(used, scratch) }
+		}
+		join(use("a"), use("b"))
+		sort.Strings(used)
+		*out = strings.Join(used, " ")
+	}},
+	{name: "LiveOthers counts the threads that have not finished", expect: []string{"during=1 after=0"}, body: func(out *string) {
+		var wg vsync.WaitGroup
+		wg.Add(1)
+		var gate vatomic.Bool
+		vrt.GoNamed("t1", func() { defer wg.Done(); vrt.WaitUntil("gate", func() bool { return gate.Peek() }) })
+		vrt.Yield()
+		during := vrt.LiveOthers()
+		gate.Store(true)
+		wg.Wait()
+		*out = fmt.Sprintf("during=%d after=%d", during, vrt.LiveOthers())
+	}},
 	{name: "cond: wait with the lock held never misses the signal", expect: []string{"woken"}, body: func(out *string) {
 		var mu vsync.Mutex
 		c := vsync.NewCond(&mu)
